@@ -384,7 +384,8 @@ def _can_paste(
     (sx, _, tx, _, sy, ty, *_) = A_  # tx, ty are in dst pixel space
 
     # Expect identity for scale change
-    if any(abs(abs(s) - 1) > stol for s in (sx, sy)):  # not equal scaling across axis?
+    # ``>=``: a scale exactly ``stol`` away from 1 is not snapped by ``snap_affine``
+    if any(abs(abs(s) - 1) >= stol for s in (sx, sy)):  # not equal scaling across axis?
         return False, "sx!=sy, probably"
 
     # Check if sub-pixel translation within bounds
